@@ -311,12 +311,23 @@ func (env *Env) eval(x Expr) (*Val, error) {
 						break
 					}
 				}
-				// the same fact is produced once per occurrence of a sub-expression: keep one copy
+				// the same fact is produced once per occurrence of a sub-expression, and again by every other
+				// quantifier over the same sub-expression: keep one copy (bound variable names normalised)
 				if strings.HasPrefix(ln, "(assert (forall ") {
-					if seenFact[ln] {
+					key := ln
+					for bi, qv := range x.Vars {
+						key = strings.ReplaceAll(key, n.vars[qv.Name].L[0].T, fmt.Sprintf("?%d", bi))
+					}
+					if seenFact[key] || (e.closedFacts[key] && e.dry == 0) {
 						continue
 					}
-					seenFact[ln] = true
+					seenFact[key] = true
+					if e.dry == 0 {
+						if e.closedFacts == nil {
+							e.closedFacts = map[string]bool{}
+						}
+						e.closedFacts[key] = true
+					}
 				}
 			}
 			kept = append(kept, ln)
